@@ -170,7 +170,7 @@ func vfMate(name string, tol float64) {
 	off := true
 	for _, li := range append(vfLeafLines(ext.(*MeshSDF2).qt), vfLeafLines(cut.(*MeshSDF2).qt)...) {
 		dn := q.Sub(li.line[0]).Dot(v2.Vec{X: li.unitVector.Y, Y: -li.unitVector.X})
-		off = vfAnd(off, vfOr(dn >= 1e-7, dn <= -1e-7))
+		off = vfAnd(off, vfOr(dn >= vfTol(1e-7, 0.9e-7), dn <= -vfTol(1e-7, 0.9e-7)))
 	}
 	vfAssume(off)
 	vfReach("mate")
